@@ -293,6 +293,9 @@ fn build(name: &str, ps: &[P]) -> Option<Vec<u8>> {
         ("Count.group_by", [Flt(f), Tg(g)]) => bytes_of(Count::new(f.clone()).group_by(g.clone())),
         ("CountGrouped.new", [Tg(g), Non]) => bytes_of(CountGrouped::new(g.clone())),
         ("CountGrouped.new", [Tg(g), Flt(f)]) => bytes_of(CountGrouped::new(g.clone()).filter(f.clone())),
+        // setting the filter again replaces it (the documented behaviour of every setter)
+        ("Count.group_by_refilter", [Flt(f), Tg(g), Flt(f2)]) => bytes_of(Count::new(f.clone()).group_by(g.clone()).filter(f2.clone())),
+        ("CountGrouped.refilter", [Tg(g), Flt(f), Flt(f2)]) => bytes_of(CountGrouped::new(g.clone()).filter(f.clone()).filter(f2.clone())),
         ("RenamePlaylist.new", [Str(a), Str(z)]) => bytes_of(RenamePlaylist::new(a, z)),
         ("LoadPlaylist.name", [Str(n), Non]) => bytes_of(LoadPlaylist::name(n)),
         ("LoadPlaylist.name", [Str(n), Range(lo, hi)]) => {
